@@ -1,3 +1,5 @@
+#[cfg(feature = "iggy_verif")]
+use iggy::verif::tokio;
 use crate::streaming::{
     batching::{
         iterator::IntoMessagesIterator,
